@@ -3,6 +3,7 @@
 package cache
 
 import (
+	"sync"
 	"context"
 	"net/netip"
 	"time"
@@ -26,6 +27,9 @@ func VerifC08PrefetchBusy(c *Cache) bool {
 		return false
 	}
 	if len(c.prefetchQueue.items) > 0 {
+		return true
+	}
+	if t, ok := c.prefetchQueryer.(*verifC08Tracker); ok && t.busy() {
 		return true
 	}
 	busy := false
@@ -252,4 +256,46 @@ func VerifC08Write(path, kind string, ttl uint32, cut time.Time, cutKey uint64, 
 		return read(key, claimed)
 	}
 	return time.Time{}, 0, false
+}
+
+// verifC08Tracker wraps the prefetch queryer to know which background refreshes are still
+// running: processPrefetch cancels its context (its outermost defer) only when everything
+// — the exchange, the write-back AND the denial-proof / NXDOMAIN-cut publication that follows
+// it — is done. Accessor only: the wrapped queryer is called unchanged.
+type verifC08Tracker struct {
+	inner middleware.Queryer
+	mu    sync.Mutex
+	live  []context.Context
+}
+
+func (t *verifC08Tracker) Query(ctx context.Context, req *dns.Msg) (*dns.Msg, error) {
+	t.mu.Lock()
+	t.live = append(t.live, ctx)
+	t.mu.Unlock()
+	return t.inner.Query(ctx, req)
+}
+
+func (t *verifC08Tracker) busy() bool {
+	t.mu.Lock()
+	defer t.mu.Unlock()
+	keep := t.live[:0]
+	for _, c := range t.live {
+		select {
+		case <-c.Done():
+		default:
+			keep = append(keep, c)
+		}
+	}
+	t.live = keep
+	return len(keep) > 0
+}
+
+// VerifC08TrackPrefetch installs the tracker (call once, after the pipeline is wired).
+func VerifC08TrackPrefetch(c *Cache) {
+	if c.prefetchQueryer == nil {
+		return
+	}
+	if _, ok := c.prefetchQueryer.(*verifC08Tracker); !ok {
+		c.prefetchQueryer = &verifC08Tracker{inner: c.prefetchQueryer}
+	}
 }
